@@ -174,13 +174,22 @@ impl Indexable for ast::Class {
 impl Indexable for ast::Def {
     type Output = ();
     fn index(&self, ctx: &mut IndexCtx) -> Option<Self::Output> {
-        let defset_id = ctx.scopes.current_defset_id();
+        // a def is outlined under the enclosing defset only if both are written in the same file
+        // (the body of a defset may include another file)
+        let defset_id = ctx.scopes.current_defset_id().filter(|defset_id| {
+            ctx.symbol_map.defset(*defset_id).define_loc.file == ctx.current_file_id()
+        });
 
         let def_id = match self.name() {
             Some(name_value) => {
                 let (name, define_loc) = index_name_value(name_value, ctx)?;
                 let def = Record::new(name, RecordKind::Def, define_loc);
-                ctx.symbol_map.add_record(def, defset_id.is_none())
+                let def_id = ctx.symbol_map.add_record(def, defset_id.is_none());
+                if let Some(defset_id) = defset_id {
+                    let defset = ctx.symbol_map.defset_mut(defset_id);
+                    defset.add_def(def_id);
+                }
+                def_id
             }
             None => {
                 let name = ctx.next_anonymous_def_name();
@@ -192,11 +201,6 @@ impl Indexable for ast::Def {
                 ctx.symbol_map.add_anonymous_def(def)
             }
         };
-
-        if let Some(defset_id) = defset_id {
-            let defset = ctx.symbol_map.defset_mut(defset_id);
-            defset.add_def(def_id);
-        }
 
         ctx.scopes.push(ScopeKind::Record(def_id));
         self.record_body()?.index(ctx);
@@ -217,7 +221,9 @@ fn index_name_value(value: ast::Value, ctx: &mut IndexCtx) -> Option<(EcoString,
 impl Indexable for ast::Defm {
     type Output = ();
     fn index(&self, ctx: &mut IndexCtx) -> Option<Self::Output> {
-        let defset_id = ctx.scopes.current_defset_id();
+        let defset_id = ctx.scopes.current_defset_id().filter(|defset_id| {
+            ctx.symbol_map.defset(*defset_id).define_loc.file == ctx.current_file_id()
+        });
 
         let defm_id = match self.name() {
             Some(name_value) => {
